@@ -216,28 +216,33 @@ theorem C05_send_whole (n m : Name) (as : List Attr) (body rest : List Tok) (hb 
   have hb' : depthAfter 0 body = some 0 := by simpa [balanced] using hb
   simp [sendToks, inner_balanced body (.stop m :: rest) 0 0 hb', inner]
 
-/-- `Send` refuses a reader that does not begin with a start element -/
+/-- `Send` refuses a reader that does not begin with a start element and writes nothing -/
 theorem C05_send_not_start (ts : List Tok) (h : ∀ n as rest, ts ≠ .start n as :: rest) :
-    sendToks ts = .error .notStart := by
+    sendToks ts = .error .notStart ∨ sendToks ts = .error .eof := by
   cases ts with
-  | nil => rfl
-  | cons t rest => cases t <;> first | rfl | exact absurd rfl (h _ _ _)
+  | nil => right; rfl
+  | cons t rest => cases t <;> first | (left; rfl) | exact absurd rfl (h _ _ _)
 
 /-- `SendElement`: the supplied start element is the outermost tag and the payload is unchanged -/
 theorem C05_sendelement_outermost (n : Name) (as : List Attr) (p : List Tok) :
     sendElementToks n as p = .start n as :: p ++ [.stop n] := rfl
 
 /-- `EncodeElement` (repaired `marshal.EncodeXMLElement`): the outermost tag of what is written
-has the name of the supplied start element and begins with its attributes; the content is
-unchanged -/
+has the name of the supplied start element and begins with its attributes, followed by the
+value's own attributes (minus its default-namespace declaration); the content is unchanged -/
 theorem C05_start_outermost (n m m' : Name) (as own : List Attr) (body : List Tok) (hb : balanced body = true) :
     replaceOuter n as 0 (.start m own :: body ++ [.stop m']) =
-      .start n (as ++ own) :: body ++ [.stop n] := by
+      .start n (as ++ own.filter notDefaultDecl) :: body ++ [.stop n] := by
   have hb' : depthAfter 0 body = some 0 := by simpa [balanced] using hb
   simp [replaceOuter, replaceOuter_balanced n as body [.stop m'] 0 0 hb']
 
-/-- every entry point ends with a flush: when the call returns, all its tokens are on the
-connection and the buffer is empty -/
+/-- `Send`, `SendElement`, the stanza variants, `TokenWriter` + `Close` and handler replies end
+with a flush: when the call returns, all its tokens are on the connection and the buffer is
+empty.
+
+Full statement (every successful transmit call returns with its element on the connection):
+FALSE for `Encode`/`EncodeElement` with a `WriterTo` value, see `C05_flushed_fails_writerto`
+and the `known:` entry; `C05_flushed_partial` covers the other value forms. -/
 theorem C05_flushed (w ts : List Tok) : exec ⟨w, []⟩ (txProg ts) = ⟨w ++ ts, []⟩ := by
   have key : ∀ (ts : List Tok) (o : Out), exec o (ts.map .write ++ [.flush]) = ⟨o.wire ++ (o.buf ++ ts), []⟩ := by
     intro ts
@@ -246,8 +251,20 @@ theorem C05_flushed (w ts : List Tok) : exec ⟨w, []⟩ (txProg ts) = ⟨w ++ t
     | cons t ts ih => intro o; simp [exec, ih]
   simpa [txProg] using key ts ⟨w, []⟩
 
-/-- without the final flush nothing reaches the connection (what `EncodeXML` did for
-`WriterTo` values before the repair) -/
+/-- `Encode`/`EncodeElement` with a token-reader, `Marshaler` or struct value flush -/
+theorem C05_flushed_partial (w ts : List Tok) : exec ⟨w, []⟩ (encodeProg false ts) = ⟨w ++ ts, []⟩ := by
+  simpa [encodeProg, txProg] using C05_flushed w ts
+
+/-- negation witness: with a `WriterTo` value the call returns while the element is still in
+the encoder's buffer (reproduced on the implementation by the `flushed` oracle clause) -/
+theorem C05_flushed_fails_writerto :
+    ¬ (∀ w ts : List Tok, exec ⟨w, []⟩ (encodeProg true ts) = ⟨w ++ ts, []⟩) := by
+  intro h
+  have := h [] [.chars "x"]
+  revert this
+  decide
+
+/-- without the final flush nothing reaches the connection -/
 theorem C05_unflushed_stays_buffered (ts : List Tok) : exec ⟨[], []⟩ (ts.map .write) = ⟨[], ts⟩ := by
   have key : ∀ (ts : List Tok) (o : Out), exec o (ts.map .write) = ⟨o.wire, o.buf ++ ts⟩ := by
     intro ts
